@@ -71,6 +71,7 @@ type c09World struct {
 	fmu            sync.Mutex // guards fatal inside the concurrent phases
 	gate           *c09Gate
 	afterClose     map[[2]int]int // slots allocated by writes after the local Close and not flushed since
+	timeoutSlots   int            // shm slices that were in the send buffer of a fallback Flush whose socket send timed out
 	racy           bool
 }
 
@@ -360,7 +361,15 @@ func (w *c09World) barrier(e int) bool {
 	return false
 }
 
-func (w *c09World) opFlush(c *c09Case, e, sid int) {
+func (w *c09World) opFlush(c *c09Case, e, sid int) { w.opFlushX(c, e, sid, false) }
+
+// stall = the fault "the control connection is stalled longer than ConnectionWriteTimeout while the session stays
+// alive": for the time of the Flush the harness holds the session's socket-write flag exactly as a writer whose
+// write(2) is blocked holds it, with a short ConnectionWriteTimeout; a fallback Flush then returns
+// ErrConnectionWriteTimeout.  The stall ends right afterwards (the queued event is written then, so the peer still
+// receives the data): for the slot accounting the op is the same Flush label - every exit of Flush, the error exits
+// of the fallback path included, must leave no shared-memory slice behind.
+func (w *c09World) opFlushX(c *c09Case, e, sid int, stall bool) {
 	if w.fatal != "" {
 		return
 	}
@@ -392,7 +401,30 @@ func (w *c09World) opFlush(c *c09Case, e, sid int) {
 	if peerStream != nil && !w.closed[[2]int{1 - e, sid}] {
 		peerPend = c09PendLen(peerStream)
 	}
+	stalled := stall && had && wasOpen && wasFb
+	shmBefore := len(sliceIDs(w, s.sendBuf))
+	var release func()
+	if stalled {
+		sess := w.sess(e)
+		oldTimeout := sess.config.ConnectionWriteTimeout
+		sess.config.ConnectionWriteTimeout = 60 * time.Millisecond
+		for !atomic.CompareAndSwapUint32(&sess.writing, 0, 1) {
+			time.Sleep(20 * time.Microsecond)
+		}
+		release = func() {
+			atomic.StoreUint32(&sess.writing, 0)
+			asyncNotify(sess.notifyContinueWriteCh)
+			sess.config.ConnectionWriteTimeout = oldTimeout
+		}
+	}
 	err := s.Flush(false)
+	if stalled {
+		release()
+		if err == ErrConnectionWriteTimeout {
+			w.feat["fallback-send-timeout"] = true
+			w.timeoutSlots += shmBefore
+		}
+	}
 	es := ""
 	if err != nil {
 		es = err.Error()
@@ -977,7 +1009,7 @@ func c09History(w *c09World, r *vrand, c *c09Case, nops int) {
 					w.opWrite(c, e, sid, 1+r.intn(12000), true)
 				}
 				if r.chance(80) {
-					w.opFlush(c, e, sid)
+					w.opFlushX(c, e, sid, r.chance(35))
 				}
 			}
 		case x < 38:
@@ -1108,6 +1140,22 @@ func c09Directed(w *c09World, c *c09Case, which int) {
 		w.opFlush(c, 0, d)
 		w.opClose(c, 1, d)
 		w.opWrite(c, 0, d, 4000, false)
+	case 4: // fallback send times out while the session stays alive: mixed shm+heap buffer, then a sticky-fallback stream
+		a := w.opOpen(c)
+		w.opWrite(c, 0, a, 10, false)
+		w.opFlush(c, 0, a)
+		w.opExtHold(c, 3)
+		w.opWrite(c, 0, a, 60000, false) // more than the free share memory: part shm, part heap
+		w.opFlushX(c, 0, a, true)         // ErrConnectionWriteTimeout
+		w.opExtReturn(c)
+		w.opWrite(c, 0, a, 5, false) // the stream is in fallback state now: one shm slice
+		w.opFlushX(c, 0, a, true)
+		w.opWrite(c, 0, a, 5000, false)
+		w.opFlush(c, 0, a)
+		w.opRead(c, 1, a, 1, 70000)
+		w.opRelease(c, 1, a)
+		w.opWrite(c, 1, a, 7, false) // the server side is in fallback state too
+		w.opFlushX(c, 1, a, true)
 	}
 }
 
@@ -1184,7 +1232,9 @@ func (w *c09World) finish(c *c09Case) {
 		for _, n := range w.afterClose {
 			ac += n
 		}
-		if ac == total && total > 0 {
+		if w.timeoutSlots == total && total > 0 && ac == 0 && w.pinnedAtClose == 0 {
+			w.oracle = append(w.oracle, fmt.Sprintf("C09:fallback-send-timeout-loses-send-buffer-slices|all streams closed on both ends, harness slots returned, yet %d slot(s) = %d bytes stay in use: exactly the shared-memory slices that were in the send buffer of a fallback Flush whose socket send returned ErrConnectionWriteTimeout (control connection stalled, session alive): that exit of Flush did not recycle them", total, smm.AllInUsedShareMemoryInBytes))
+		} else if ac == total && total > 0 {
 			w.oracle = append(w.oracle, fmt.Sprintf("C09:write-after-Close-allocates-shared-memory-never-recycled|all streams closed on both ends, harness slots returned, yet %d slot(s) = %d bytes stay in use: exactly the slice(s) that WriteBytes / Reserve allocated for a stream AFTER its Close() (the calls succeeded; no Flush followed, and nothing else ever recycles the send buffer of a closed stream)", total, smm.AllInUsedShareMemoryInBytes))
 		} else if w.pinnedAtClose == total && total > 0 {
 			w.oracle = append(w.oracle, fmt.Sprintf("C09:pinned-slices-not-recycled-by-Close|all streams closed on both ends, harness slots returned, yet %d slot(s) = %d bytes stay in use: exactly the %d slice(s) that sat in a pinned list (ReadBytes without ReleasePreviousRead) when their stream was closed", total, smm.AllInUsedShareMemoryInBytes, w.pinnedAtClose))
@@ -1257,9 +1307,9 @@ func TestVerif_C09(t *testing.T) {
 		seed    uint64
 	}
 	var jobs []job
-	jobs = append(jobs, job{0, 0, 8, 0}, job{1, 1, 2, 0}, job{2, 2, 8, 0}, job{3, 3, 8, 0})
+	jobs = append(jobs, job{0, 0, 8, 0}, job{1, 1, 2, 0}, job{2, 2, 8, 0}, job{3, 3, 8, 0}, job{4, 4, 8, 0})
 	for k := 0; k < n; k++ {
-		jobs = append(jobs, job{4 + k, -1, []int{2, 3, 4, 8}[r.intn(4)], r.u64()})
+		jobs = append(jobs, job{5 + k, -1, []int{2, 3, 4, 8}[r.intn(4)], r.u64()})
 	}
 	results := make([]c09Case, len(jobs))
 	sem := make(chan struct{}, 8)
